@@ -206,7 +206,7 @@ Lemma second_pass_spec fuel parent bottom par fb nodes_of : forall j mparent fm 
 Proof.
   induction nodes_of as [|nd tl IH]; intros j mparent fm mp' Hp Hb Z Cl Hm Ru J0 Jn W; simpl in W.
   - inversion W; subst. split; auto. exists fm. split; auto. split; auto. intros [|k] u H; discriminate.
-  - rewrite zlen_cons in Jn. pose proof (zlen_nonneg tl) as Ztl.
+  - rewrite zlen_cons in Jn |- *. pose proof (zlen_nonneg tl) as Ztl.
     rewrite (Hm j) in W by lia. simpl in W.
     assert (Rnd : 0 <= nd < zlen parent) by (apply Ru; now left).
     (* the update of entry j *)
@@ -256,4 +256,364 @@ Proof.
         -- inversion Hk; subst u. simpl. rewrite Z.add_0_r. rewrite Ej. apply O. lia.
         -- specialize (K k u Hk). simpl in K.
            replace (j + Z.of_nat (S k)) with (j + 1 + Z.of_nat k) by lia. exact K.
+Qed.
+
+(* ---------------------------------------------------------------------- *)
+(* reset pass                                                             *)
+(* ---------------------------------------------------------------------- *)
+Lemma reset_spec nodes_of : forall j bottom mparent fb fm,
+  arr_is bottom fb -> arr_is mparent fm ->
+  (forall u, In u nodes_of -> 0 <= u < zlen bottom) ->
+  0 <= j -> j + zlen nodes_of <= zlen mparent ->
+  match site_reset nodes_of j bottom mparent with
+  | Ok bottom' =>
+      zlen bottom' = zlen bottom /\
+      (exists fb', arr_is bottom' fb' /\
+         (forall v, In v nodes_of -> fb' v = NULL) /\ (forall v, ~ In v nodes_of -> fb' v = fb v)) /\
+      (forall k, (k < length nodes_of)%nat -> fm (j + Z.of_nat k) <= j + Z.of_nat k)
+  | Err c => c = E_MUTATION_PARENT_AFTER_CHILD /\
+             exists k, (k < length nodes_of)%nat /\ j + Z.of_nat k < fm (j + Z.of_nat k)
+  | _ => False
+  end.
+Proof.
+  induction nodes_of as [|u tl IH]; intros j bottom mparent fb fm Hb Hm Ru J0 Jn; simpl.
+  - split; auto. split; [exists fb; repeat split; auto; intros v []|]. intros k Hk. lia.
+  - rewrite zlen_cons in Jn. pose proof (zlen_nonneg tl) as Ztl.
+    destruct (set_spec bottom u NULL) as (b1 & E & _); [apply Ru; now left|].
+    rewrite E. simpl. destruct (arr_is_set _ _ _ _ _ Hb E) as [A1 Z1].
+    rewrite (Hm j) by lia. simpl.
+    destruct (j <? fm j) eqn:C.
+    + apply Z.ltb_lt in C. split; auto. exists O. simpl. rewrite Z.add_0_r. split; [lia | auto].
+    + apply Z.ltb_ge in C.
+      specialize (IH (j + 1) b1 mparent (upd fb u NULL) fm A1 Hm).
+      destruct (site_reset tl (j + 1) b1 mparent) as [b'|c| |].
+      * destruct IH as (Zb & (fb' & Ab & In_ & Out_) & Le); auto; try lia.
+        { intros v Hv. rewrite Z1. apply Ru. now right. }
+        split; [congruence|]. split.
+        -- exists fb'. split; auto. split.
+           ++ intros v [->|Hv]; auto.
+              destruct (in_dec Z.eq_dec v tl) as [I|NI]; auto.
+              rewrite Out_ by auto. unfold upd. now rewrite Z.eqb_refl.
+           ++ intros v Hv. rewrite Out_ by (intro; apply Hv; now right).
+              unfold upd. replace (v =? u) with false; auto.
+              symmetry. apply Z.eqb_neq. intro; subst. apply Hv. now left.
+        -- intros [|k] Hk; simpl.
+           ++ rewrite Z.add_0_r. exact C.
+           ++ specialize (Le k ltac:(lia)).
+              replace (j + Z.pos (Pos.of_succ_nat k)) with (j + 1 + Z.of_nat k) by lia. exact Le.
+      * destruct IH as (Ec & k & Hk & Gt); auto; try lia.
+        { intros v Hv. rewrite Z1. apply Ru. now right. }
+        split; auto. exists (S k). split; [lia|].
+        replace (j + Z.of_nat (S k)) with (j + 1 + Z.of_nat k) by lia. exact Gt.
+      * apply IH; auto; try lia. intros v Hv. rewrite Z1. apply Ru. now right.
+      * apply IH; auto; try lia. intros v Hv. rewrite Z1. apply Ru. now right.
+Qed.
+
+Lemma last_on_not_in l : forall j v acc, ~ In v l -> last_on l j v acc = acc.
+Proof.
+  induction l as [|u tl IH]; intros j v acc H; simpl; auto.
+  rewrite IH by (intro; apply H; now right).
+  replace (u =? v) with false; auto. symmetry. apply Z.eqb_neq. intro; subst. apply H. now left.
+Qed.
+
+(* ---------------------------------------------------------------------- *)
+(* a chain with strictly increasing, bounded rank ends: used when the site   *)
+(* has a single mutation and the second pass is skipped                     *)
+(* ---------------------------------------------------------------------- *)
+Lemma nearest_anc_none par has n (rank : Z -> Z) M :
+  (forall v, 0 <= v < n -> par v = NULL \/ (0 <= par v < n /\ rank v < rank (par v))) ->
+  (forall v, 0 <= v < n -> rank v <= M) ->
+  forall k v, (v = NULL \/ (0 <= v < n /\ M - rank v < Z.of_nat k)) ->
+    (forall w, 0 <= w < n -> rank v <= rank w -> has w = NULL) ->
+    nearest_anc par has v NULL.
+Proof.
+  intros Cl Bd. induction k as [|k IH]; intros v Hv Hh.
+  - destruct Hv as [->|[R Hk]]; [constructor|]. specialize (Bd v R). lia.
+  - destruct Hv as [->|[R Hk]]; [constructor|].
+    assert (v <> NULL) by (unfold NULL; lia).
+    apply na_up; auto; [apply Hh; auto; lia|].
+    destruct (Cl v R) as [E|[Rp Lt]].
+    + rewrite E. constructor.
+    + apply IH; [right; split; auto; lia|]. intros w Rw Hw. apply Hh; auto. lia.
+Qed.
+
+(* ---------------------------------------------------------------------- *)
+(* one site                                                               *)
+(* ---------------------------------------------------------------------- *)
+Lemma nearest_anc_ext_has par has has' v r :
+  (forall w, has w = has' w) -> nearest_anc par has v r -> nearest_anc par has' v r.
+Proof.
+  intros E H. induction H.
+  - constructor.
+  - rewrite E. apply na_here; auto. now rewrite <- E.
+  - apply na_up; auto. now rewrite <- E.
+Qed.
+
+Definition in_block (first : Z) (len : Z) (i : Z) : Prop := first <= i < first + len.
+
+(* [rank] = node time: strictly increasing towards the root and bounded, i.e. the parent
+   array is a forest *)
+Theorem do_site_correct fuel parent par (rank : Z -> Z) M nodes_of first bottom mparent fm bottom' mparent' :
+  arr_is parent par ->
+  (forall v, 0 <= v < zlen parent -> par v = NULL \/ (0 <= par v < zlen parent /\ rank v < rank (par v))) ->
+  (forall v, 0 <= v < zlen parent -> rank v <= M) ->
+  arr_is bottom (fun _ => NULL) -> zlen parent = zlen bottom ->
+  arr_is mparent fm -> (forall i, in_block first (zlen nodes_of) i -> fm i = NULL) ->
+  (forall u, In u nodes_of -> 0 <= u < zlen parent) ->
+  0 <= first -> first + zlen nodes_of <= zlen mparent ->
+  do_site fuel parent nodes_of first bottom mparent = Ok (bottom', mparent') ->
+  arr_is bottom' (fun _ => NULL) /\ zlen bottom' = zlen bottom /\ zlen mparent' = zlen mparent /\
+  exists fm', arr_is mparent' fm' /\
+    (forall i, ~ in_block first (zlen nodes_of) i -> fm' i = fm i) /\
+    (forall k, (k < length nodes_of)%nat ->
+       nearest_above par nodes_of first k (fm' (first + Z.of_nat k)) /\
+       fm' (first + Z.of_nat k) <= first + Z.of_nat k).
+Proof.
+  intros Hp Cl Bd Hb Zpb Hm Blk Ru F0 Fn D. unfold do_site in D.
+  assert (Cl' : forall v, 0 <= v < zlen parent -> par v = NULL \/ 0 <= par v < zlen parent).
+  { intros v Hv. destruct (Cl v Hv) as [E|[R _]]; auto. }
+  destruct (first_pass_refines nodes_of first bottom mparent _ _ Hb Hm) as (b1 & m1 & E1 & Ab1 & Am1 & Zb1 & Zm1); auto.
+  { intros u Hu. rewrite <- Zpb. auto. }
+  rewrite E1 in D. simpl in D.
+  set (fb1 := fst (fp_fun nodes_of first (fun _ => NULL) fm)) in *.
+  set (fm1 := snd (fp_fun nodes_of first (fun _ => NULL) fm)) in *.
+  assert (Fb1 : forall v, fb1 v = last_on nodes_of first v NULL) by (intro v; unfold fb1; apply fp_fun_bottom).
+  assert (Fm1 : forall k u, nth_error nodes_of k = Some u ->
+            fm1 (first + Z.of_nat k) = last_on (firstn k nodes_of) first u NULL).
+  { intros k u Hk. unfold fm1. rewrite fp_fun_mparent.
+    assert (Lk : (k < length nodes_of)%nat) by (apply nth_error_Some; congruence).
+    replace ((first <=? first + Z.of_nat k) && (first + Z.of_nat k <? first + zlen nodes_of)) with true
+      by (symmetry; apply andb_true_iff; split; [apply Z.leb_le | apply Z.ltb_lt]; unfold zlen; lia).
+    replace (Z.to_nat (first + Z.of_nat k - first)) with k by lia. rewrite Hk. simpl.
+    destruct (last_on (firstn k nodes_of) first u NULL =? NULL) eqn:E; auto.
+    apply Z.eqb_eq in E. rewrite E. apply Blk. unfold in_block, zlen. lia. }
+  assert (Fm1o : forall i, ~ in_block first (zlen nodes_of) i -> fm1 i = fm i).
+  { intros i Hi. unfold fm1. rewrite fp_fun_mparent.
+    replace ((first <=? i) && (i <? first + zlen nodes_of)) with false; auto.
+    symmetry. apply andb_false_iff. unfold in_block in Hi.
+    destruct (Z_le_gt_dec first i); [right; apply Z.ltb_ge; lia | left; apply Z.leb_gt; lia]. }
+  destruct (if 1 <? zlen nodes_of then site_second_pass fuel parent b1 nodes_of first m1 else Ok m1)
+    as [m2| | |] eqn:E2; simpl in D; try discriminate.
+  assert (S2 : zlen m2 = zlen mparent /\ exists fm2, arr_is m2 fm2 /\
+            (forall i, ~ in_block first (zlen nodes_of) i -> fm2 i = fm i) /\
+            (forall k, (k < length nodes_of)%nat -> nearest_above par nodes_of first k (fm2 (first + Z.of_nat k)))).
+  { destruct (1 <? zlen nodes_of) eqn:C.
+    - destruct (second_pass_spec fuel parent b1 par fb1 nodes_of first m1 fm1 m2 Hp Ab1 ltac:(congruence) Cl' Am1)
+        as (Zm2 & fm2 & A2 & O2 & K2); auto; try lia.
+      split; [congruence|]. exists fm2. split; auto. split.
+      + intros i Hi. rewrite O2 by exact Hi. apply Fm1o; auto.
+      + intros k Hk. destruct (nth_error nodes_of k) as [u|] eqn:Nu; [|apply nth_error_None in Nu; lia].
+        exists u. split; auto. simpl. specialize (K2 k u Nu). simpl in K2.
+        rewrite (Fm1 k u Nu) in K2.
+        destruct (last_on (firstn k nodes_of) first u NULL =? NULL).
+        * eapply nearest_anc_ext_has; [|exact K2]. exact Fb1.
+        * exact K2.
+    - inversion E2; subst m2. split; auto. exists fm1. split; auto. split; auto.
+      intros k Hk. apply Z.ltb_ge in C.
+      destruct nodes_of as [|u [|u2 tl]]; simpl in Hk;
+        [lia | | rewrite !zlen_cons in C; pose proof (zlen_nonneg tl); lia].
+      assert (k = O) by lia. subst k. pose proof (Fm1 O u eq_refl) as F1. simpl in F1.
+      exists u. split; auto. simpl. rewrite F1.
+      assert (Ru0 : 0 <= u < zlen parent) by (apply Ru; now left).
+      destruct (Cl u Ru0) as [E|[R Lt]]; [rewrite E; constructor|].
+      apply (nearest_anc_none par _ (zlen parent) rank M Cl Bd (S (Z.to_nat (M - rank (par u))))).
+      + right. split; auto. specialize (Bd _ R). lia.
+      + intros w Rw Hw. replace (u =? w) with false; auto.
+        symmetry. apply Z.eqb_neq. intro; subst w. lia. }
+  destruct S2 as (Zm2 & fm2 & A2 & O2 & K2).
+  assert (Rb1 : forall u, In u nodes_of -> 0 <= u < zlen b1) by (intros u Hu; rewrite Zb1, <- Zpb; auto).
+  pose proof (reset_spec nodes_of first b1 m2 fb1 fm2 Ab1 A2 Rb1 F0 ltac:(lia)) as RS.
+  destruct (site_reset nodes_of first b1 m2) as [b3| | |] eqn:E3; simpl in D; try discriminate.
+  inversion D; subst bottom' mparent'. clear D.
+  destruct RS as (Zb3 & (fb3 & Ab3 & In3 & Out3) & Le3).
+  split; [|split; [congruence|split; [congruence|]]].
+  - eapply arr_is_ext; [exact Ab3|]. intros v Hv. simpl.
+    destruct (in_dec Z.eq_dec v nodes_of) as [I|NI]; [apply In3; exact I|].
+    rewrite (Out3 v NI). rewrite Fb1. apply last_on_not_in. exact NI.
+  - exists fm2. split; auto.
+Qed.
+
+(* ---------------------------------------------------------------------- *)
+(* all sites under one tree: the loop 12411-12452 over a site-sorted         *)
+(* mutation list                                                            *)
+(* ---------------------------------------------------------------------- *)
+(* the blocks (first row id, nodes) the loop hands to the per-site body, for the first
+   [n] sites starting at site id [sid] *)
+Fixpoint blocks (n : nat) (sid : Z) (muts : list mutation) (mid : Z) : list (Z * list Z) :=
+  match n with
+  | O => []
+  | S n' => let r := take_site sid muts in
+            (mid, map m_node (fst r)) :: blocks n' (sid + 1) (snd r) (mid + zlen (fst r))
+  end.
+
+Lemma take_site_split sid muts :
+  muts = fst (take_site sid muts) ++ snd (take_site sid muts) /\
+  (forall m, In m (fst (take_site sid muts)) -> m_site m = sid).
+Proof.
+  induction muts as [|m tl IH]; simpl; [split; auto; intros ? []|].
+  destruct (m_site m =? sid) eqn:E; simpl.
+  - destruct IH as [IH1 IH2]. split; [now rewrite <- IH1|].
+    intros x [<-|Hx]; auto. now apply Z.eqb_eq.
+  - split; auto. intros ? [].
+Qed.
+
+(* on a list sorted by site whose sites are >= sid, the block is exactly the mutations of
+   site sid and the rest belongs to later sites *)
+Lemma take_site_sorted sid muts :
+  Sorted (fun a b => m_site a <= m_site b) muts -> (forall m, In m muts -> sid <= m_site m) ->
+  fst (take_site sid muts) = filter (fun m => m_site m =? sid) muts /\
+  (forall m, In m (snd (take_site sid muts)) -> sid + 1 <= m_site m) /\
+  Sorted (fun a b => m_site a <= m_site b) (snd (take_site sid muts)).
+Proof.
+  intros S Ge. induction muts as [|m tl IH]; simpl; [repeat split; auto; intros ? []|].
+  assert (S' : Sorted (fun a b => m_site a <= m_site b) tl) by now inversion S.
+  destruct (m_site m =? sid) eqn:E; simpl.
+  - destruct IH as (I1 & I2 & I3); auto. { intros; apply Ge; now right. }
+    rewrite I1. auto.
+  - apply Z.eqb_neq in E. assert (Gm : sid + 1 <= m_site m) by (specialize (Ge m (or_introl eq_refl)); lia).
+    assert (All : forall x, In x (m :: tl) -> sid + 1 <= m_site x).
+    { apply Sorted_StronglySorted in S; [|intros a b c; lia].
+      inversion S; subst. rewrite Forall_forall in H2. intros x [<-|Hx]; auto. specialize (H2 x Hx). lia. }
+    split; [|split; auto].
+    symmetry. apply (proj2 (filter_nil_iff _ _)) || idtac.
+    clear - All. induction tl as [|y tl IH]; simpl; auto.
+    replace (m_site y =? sid) with false.
+    + apply IH. intros x [<-|Hx]; apply All; [now left | right; now right].
+    + symmetry. apply Z.eqb_neq. specialize (All y (or_intror (or_introl eq_refl))). lia.
+Qed.
+
+Theorem sites_loop_correct fuel parent par (rank : Z -> Z) M right :
+  arr_is parent par ->
+  (forall v, 0 <= v < zlen parent -> par v = NULL \/ (0 <= par v < zlen parent /\ rank v < rank (par v))) ->
+  (forall v, 0 <= v < zlen parent -> rank v <= M) ->
+  forall sites sid muts mid bottom mparent fm sites' sid' muts' mid' bottom' mparent',
+  arr_is bottom (fun _ => NULL) -> zlen parent = zlen bottom ->
+  arr_is mparent fm -> (forall i, mid <= i -> fm i = NULL) ->
+  (forall m, In m muts -> 0 <= m_node m < zlen parent) ->
+  0 <= mid -> mid + zlen muts <= zlen mparent ->
+  sites_loop fuel parent right sites sid muts mid bottom mparent
+    = Ok ((sites', sid'), (muts', mid'), (bottom', mparent')) ->
+  exists n,
+    sites = firstn n sites ++ sites' /\ length (firstn n sites) = n /\ sid' = sid + Z.of_nat n /\
+    Forall (fun s => s_pos s < right) (firstn n sites) /\
+    (match sites' with [] => True | s :: _ => right <= s_pos s end) /\
+    arr_is bottom' (fun _ => NULL) /\ zlen bottom' = zlen bottom /\ zlen mparent' = zlen mparent /\
+    mid <= mid' /\ mid' + zlen muts' = mid + zlen muts /\
+    exists fm', arr_is mparent' fm' /\
+      (forall i, i < mid -> fm' i = fm i) /\ (forall i, mid' <= i -> fm' i = NULL) /\
+      Forall (fun b => forall k, (k < length (snd b))%nat ->
+                nearest_above par (snd b) (fst b) k (fm' (fst b + Z.of_nat k)) /\
+                fm' (fst b + Z.of_nat k) <= fst b + Z.of_nat k)
+             (blocks n sid muts mid).
+Proof.
+  intros Hp Cl Bd. induction sites as [|s tl IH];
+    intros sid muts mid bottom mparent fm sites' sid' muts' mid' bottom' mparent' Hb Zpb Hm Nl Rn M0 Mn L;
+    simpl in L.
+  - inversion L; subst. exists O. simpl. rewrite Z.add_0_r. repeat split; auto; try lia.
+    exists fm. repeat split; auto.
+  - destruct (s_pos s <? right) eqn:C.
+    + apply Z.ltb_lt in C.
+      destruct (take_site_split sid muts) as [Esp Esite].
+      set (blk := fst (take_site sid muts)) in *. set (rest := snd (take_site sid muts)) in *.
+      assert (Zsp : zlen muts = zlen blk + zlen rest) by (rewrite Esp at 1; apply zlen_app).
+      pose proof (zlen_nonneg blk) as Zb0. pose proof (zlen_nonneg rest) as Zr0.
+      destruct (do_site fuel parent (map m_node blk) mid bottom mparent) as [[b1 m1]| | |] eqn:D;
+        simpl in L; try discriminate.
+      assert (Zmap : zlen (map m_node blk) = zlen blk) by (unfold zlen; now rewrite map_length).
+      destruct (do_site_correct fuel parent par rank M (map m_node blk) mid bottom mparent fm b1 m1
+                  Hp Cl Bd Hb Zpb Hm) as (Ab1 & Zb1 & Zm1 & fm1 & Am1 & O1 & K1); auto.
+      { intros i Hi. apply Nl. unfold in_block in Hi. lia. }
+      { intros u Hu. apply in_map_iff in Hu as (m & <- & Hm'). apply Rn. rewrite Esp. apply in_or_app. now left. }
+      { rewrite Zmap. lia. }
+      destruct (IH (sid + 1) rest (mid + zlen blk) b1 m1 fm1 sites' sid' muts' mid' bottom' mparent')
+        as (n & E1 & E2 & E3 & E4 & E5 & E6 & E7 & E8 & E9 & E10 & fm' & A' & O' & N' & F'); auto.
+      { congruence. }
+      { intros i Hi. rewrite O1; [apply Nl; lia|]. unfold in_block. rewrite Zmap. lia. }
+      { intros m Hm'. apply Rn. rewrite Esp. apply in_or_app. now right. }
+      { lia. }
+      { rewrite Zm1. lia. }
+      exists (S n). simpl. rewrite <- E1. repeat split; auto; try lia; try congruence.
+      exists fm'. repeat split; auto.
+      * intros i Hi. rewrite O' by lia. apply O1. unfold in_block. lia.
+      * constructor; auto. simpl. fold blk.
+        intros k Hk. rewrite map_length in Hk.
+        assert (Hk' : (k < length (map m_node blk))%nat) by now rewrite map_length.
+        destruct (K1 k Hk') as [K1a K1b].
+        rewrite O' by (unfold zlen; lia). auto.
+    + apply Z.ltb_ge in C. inversion L; subst. exists O. simpl. rewrite Z.add_0_r.
+      repeat split; auto; try lia. exists fm. repeat split; auto.
+Qed.
+
+(* ---------------------------------------------------------------------- *)
+(* the blocks of a site-sorted mutation list are the per-site sublists       *)
+(* ---------------------------------------------------------------------- *)
+Lemma filter_all {A} (f : A -> bool) l : (forall x, In x l -> f x = true) -> filter f l = l.
+Proof. induction l; simpl; intro H; auto. rewrite H by now left. f_equal. apply IHl. intros; apply H; now right. Qed.
+Lemma filter_none {A} (f : A -> bool) l : (forall x, In x l -> f x = false) -> filter f l = [].
+Proof. induction l; simpl; intro H; auto. rewrite H by now left. apply IHl. intros; apply H; now right. Qed.
+
+Definition site_block (muts : list mutation) (s : Z) : list mutation := filter (fun m => m_site m =? s) muts.
+Definition site_first (muts : list mutation) (s : Z) : Z := zlen (filter (fun m => m_site m <? s) muts).
+
+Lemma blocks_nth n : forall sid muts mid i,
+  Sorted (fun a b => m_site a <= m_site b) muts -> (forall m, In m muts -> sid <= m_site m) ->
+  (i < n)%nat ->
+  nth_error (blocks n sid muts mid) i
+  = Some (mid + site_first muts (sid + Z.of_nat i), map m_node (site_block muts (sid + Z.of_nat i))).
+Proof.
+  induction n as [|n IH]; intros sid muts mid i S Ge Hi; [lia|]. simpl.
+  destruct (take_site_sorted sid muts S Ge) as (B1 & B2 & B3).
+  destruct (take_site_split sid muts) as [Esp Esite].
+  set (blk := fst (take_site sid muts)) in *. set (rest := snd (take_site sid muts)) in *.
+  destruct i as [|i]; simpl.
+  - rewrite Z.add_0_r. unfold site_first, site_block. rewrite <- B1.
+    rewrite filter_none; [change (zlen (@nil mutation)) with 0; now rewrite Z.add_0_r|].
+    intros x Hx. apply Z.ltb_ge. auto.
+  - rewrite (IH (sid + 1) rest (mid + zlen blk) i B3 B2) by lia.
+    replace (sid + 1 + Z.of_nat i) with (sid + Z.pos (Pos.of_succ_nat i)) by lia.
+    set (s := sid + Z.pos (Pos.of_succ_nat i)).
+    assert (Hs : sid + 1 <= s) by (unfold s; lia).
+    assert (F1 : forall f, filter f muts = filter f blk ++ filter f rest)
+      by (intro f; rewrite Esp at 1; apply filter_app).
+    unfold site_first, site_block. rewrite !F1.
+    rewrite (filter_all (fun m => m_site m <? s) blk) by (intros x Hx; apply Z.ltb_lt; rewrite (Esite x Hx); lia).
+    rewrite (filter_none (fun m => m_site m =? s) blk) by (intros x Hx; apply Z.eqb_neq; rewrite (Esite x Hx); lia).
+    rewrite zlen_app. simpl. f_equal. f_equal. lia.
+Qed.
+
+(* (e) one tree, a whole site-sorted mutation list: every mutation of every processed site
+   gets the nearest mutation above it *)
+Theorem mutation_parents_nearest_proof fuel parent par (rank : Z -> Z) M right
+        sites muts bottom mparent sid' muts' mid' bottom' mparent' :
+  arr_is parent par ->
+  (forall v, 0 <= v < zlen parent -> par v = NULL \/ (0 <= par v < zlen parent /\ rank v < rank (par v))) ->
+  (forall v, 0 <= v < zlen parent -> rank v <= M) ->
+  arr_is bottom (fun _ => NULL) -> zlen parent = zlen bottom ->
+  arr_is mparent (fun _ => NULL) -> zlen muts <= zlen mparent ->
+  (forall m, In m muts -> 0 <= m_node m < zlen parent /\ 0 <= m_site m) ->
+  Sorted (fun a b => m_site a <= m_site b) muts ->
+  Forall (fun s => s_pos s < right) sites ->
+  sites_loop fuel parent right sites 0 muts 0 bottom mparent
+    = Ok (([], sid'), (muts', mid'), (bottom', mparent')) ->
+  arr_is bottom' (fun _ => NULL) /\
+  exists fm', arr_is mparent' fm' /\ zlen mparent' = zlen mparent /\
+    forall s k, 0 <= s < zlen sites -> (k < length (site_block muts s))%nat ->
+      let first := site_first muts s in
+      nearest_above par (map m_node (site_block muts s)) first k (fm' (first + Z.of_nat k)) /\
+      fm' (first + Z.of_nat k) <= first + Z.of_nat k.
+Proof.
+  intros Hp Cl Bd Hb Zpb Hm Lm Rn S Fs L.
+  destruct (sites_loop_correct fuel parent par rank M right Hp Cl Bd sites 0 muts 0 bottom mparent
+              (fun _ => NULL) [] sid' muts' mid' bottom' mparent' Hb Zpb Hm)
+    as (n & E1 & E2 & E3 & E4 & E5 & E6 & E7 & E8 & E9 & E10 & fm' & A' & O' & N' & F'); auto; try lia.
+  { intros m Hm'. apply Rn. auto. }
+  split; auto. exists fm'. split; auto. split; auto.
+  intros s k Hs Hk first.
+  rewrite app_nil_r in E1.
+  assert (Hn : n = length sites) by (rewrite E1; symmetry; exact E2).
+  assert (Hi : (Z.to_nat s < n)%nat) by (unfold zlen in Hs; lia).
+  pose proof (blocks_nth n 0 muts 0 (Z.to_nat s) S ltac:(intros m Hm'; apply Rn; auto) Hi) as B.
+  rewrite Z2Nat.id in B by lia. simpl in B.
+  rewrite Forall_forall in F'. specialize (F' _ (nth_error_In _ _ B)). simpl in F'.
+  specialize (F' k ltac:(now rewrite map_length)). exact F'.
 Qed.
